@@ -18,7 +18,12 @@ func TestVerifC12TLS12(t *testing.T) {
 		src := vfGenClientSrc(rt, "src")
 		sni := vfGenDNSName(rt, "sni")
 		st.Eval()
-		p, err := vfPrepareClient(src, sni, rapid.Uint64().Draw(rt, "randseed"), nil)
+		// Config.NextProtos is an application-level wish list; what counts is the ALPN extension on the wire
+		var nextProtos []string
+		if rapid.Bool().Draw(rt, "cfgnextprotos") {
+			nextProtos = [][]string{{"h2"}, {"h2", "http/1.1"}, {"vf-proto", "h3"}}[rapid.IntRange(0, 2).Draw(rt, "cfgnextprotosv")]
+		}
+		p, err := vfPrepareClient(src, sni, rapid.Uint64().Draw(rt, "randseed"), func(c *Config) { c.NextProtos = nextProtos })
 		if err != nil {
 			st.Violation(rt, "%s: %v", src, err)
 		}
@@ -108,6 +113,17 @@ func TestVerifC12TLS12(t *testing.T) {
 				if !offered[a] {
 					c2 = append(c2, a)
 				}
+			}
+			// preferably a protocol the application listed in Config.NextProtos although the hello does not offer it
+			var wished []string
+			for _, a := range nextProtos {
+				if !offered[a] {
+					wished = append(wished, a)
+				}
+			}
+			if len(wished) > 0 && rapid.Bool().Draw(rt, "alpn_from_config") {
+				c2 = wished
+				st.Class("tls12-alpn-from-config-not-on-wire")
 			}
 			a := c2[rapid.IntRange(0, len(c2)-1).Draw(rt, "alpn")]
 			s.ALPN, badALPN = &a, a
